@@ -94,6 +94,9 @@ class Buffer:
                     return message, end
                 except Exception:
                     logger.warning("Buffer: Contents is not a valid message")
+                    # a complete element that is not a valid message
+                    # will never become one: let the caller skip it
+                    return None, end
         return None, None
 
     def process(self, callback: Callable[[IndiMessage], None]):
@@ -102,6 +105,10 @@ class Buffer:
             message, end = self._find_message_in_buffer()
 
             if not message:
+                if end:
+                    self.data = self.data[end:]
+                    self._cleanup_buffer()
+                    continue
                 if (
                     self.max_buffer_size_before_frontal_cleanup is not None
                     and self.data_len > self.max_buffer_size_before_frontal_cleanup
